@@ -67,6 +67,7 @@ pub struct RttFacts {
     pub gap_near_600: usize,
     pub resets: usize,
     pub gran_dominates: usize,
+    pub zero_samples: usize,
 }
 
 pub fn check_c15(l: &Ledger) -> (Vec<Violation>, RttFacts) {
@@ -144,13 +145,15 @@ pub fn check_c15(l: &Ledger) -> (Vec<Violation>, RttFacts) {
                 for tx in l.txs.iter().filter(|t| t.gen == st.gen && t.final_step() == Some(st.idx)) {
                     let n_tx = tx.transmissions.iter().filter(|(s, _, _)| *s < st.idx).count();
                     if n_tx == 1 {
+                        // a response handed over at the very instant of the request is a sample like any other (R = 0)
                         let rtt = (st.t - tx.t0) as f64;
-                        if rtt > 0.0 {
-                            r.sample(rtt);
-                            facts.samples += 1;
-                            if r.gran > 4.0 * r.rttvar {
-                                facts.gran_dominates += 1;
-                            }
+                        r.sample(rtt);
+                        facts.samples += 1;
+                        if rtt == 0.0 {
+                            facts.zero_samples += 1;
+                        }
+                        if r.gran > 4.0 * r.rttvar {
+                            facts.gran_dominates += 1;
                         }
                     } else {
                         facts.retransmitted_completed += 1;
